@@ -771,3 +771,71 @@ Proof.
   assert (d <=? D = true) as -> by (apply N.leb_le; exact Hd).
   assert (tL <=? D = true) as -> by (apply N.leb_le; exact Ht). reflexivity.
 Qed.
+
+(* ================= the explicit-flush handshake ================= *)
+
+(* every resolution of the selects (c ranges over all residues mod 2 and mod 3), every deadline
+   situation of the caller - context already done (Some 0), done later, none - and every consistent
+   valuation of the stream / run contexts (the run context is derived from the stream context) *)
+Definition flush_ctxs : list (option N) := [Some 0; Some 300; None].
+Definition flush_flagsets : list (list flag) := [[]; [FRunCtx]; [FSctx; FRunCtx]].
+
+(* the loop is back at its select (or has ended with its run context) *)
+Definition loop_idle (p : pst) : bool :=
+  match code p with
+  | Ret _ => true
+  | Alt (GFlag f) _ _ => N.eqb f FHanded
+  | _ => false
+  end.
+
+(* after any one Flush call the flush loop is back at its select, and a caller with a deadline has
+   returned once the deadline has passed *)
+Lemma flush_handshake_returns :
+  forallb (fun fs => forallb (fun ctx => forallb (fun c =>
+     let w := run (init 60 fs [flushServe]) [(ESpawn (upFlushCaller ctx), c); (ETick 300, c)] in
+     loop_idle (nth 0 (procs w) dummy) &&
+     (returned (nth 1 (procs w) dummy) || match ctx with None => true | Some _ => false end))
+     (seq 0 6)) flush_ctxs) flush_flagsets = true.
+Proof. vm_compute. reflexivity. Qed.
+
+(* the window: u.flush inside the loop's turn takes time (stream lock, sent-storage Store) - here
+   the stream lock is held by somebody until flag 99 - and the caller's context ends meanwhile *)
+Definition lockHolder : proc := Acq LUmu LW (Alt (GFlag 99) (Rel LUmu (Ret ONil)) Block).
+Definition window_events (ctx : option N) (c : nat) : list (event * nat) :=
+  [(ESpawn (upFlushCaller ctx), c); (ETick 300, c); (ESet 99 true, c)].
+
+Lemma flush_handshake_window :
+  forallb (fun fs => forallb (fun ctx => forallb (fun c =>
+     let w := run (init 60 fs [lockHolder; flushServe]) (window_events ctx c) in
+     loop_idle (nth 1 (procs w) dummy) &&
+     (returned (nth 2 (procs w) dummy) || match ctx with None => true | Some _ => false end))
+     (seq 0 6)) flush_ctxs) flush_flagsets = true.
+Proof. vm_compute. reflexivity. Qed.
+
+(* without the remoteDone arm: the caller hands its request over, its context ends while the loop
+   is still inside u.flush, it leaves; the loop then offers the result for ever (never idle again),
+   and the stream is wedged: the loop no longer takes writes or flushes *)
+Lemma flush_noRemoteDone_refuted :
+  (let w := run (init 60 [] [lockHolder; flushServe_noRemoteDone]) (window_events (Some 100) 0 ++ [(ETick far, 0%nat)]) in
+   loop_idle (nth 1 (procs w) dummy) = false /\ result (nth 2 (procs w) dummy) = OCtx /\
+   fl_mem FFlushReady (flags w) = false) /\
+  (let w := run (init 60 [] [lockHolder; flushServe]) (window_events (Some 100) 0 ++ [(ETick far, 0%nat)]) in
+   loop_idle (nth 1 (procs w) dummy) = true /\ result (nth 2 (procs w) dummy) = OCtx).
+Proof. vm_compute. repeat split; reflexivity. Qed.
+
+(* ================= the dispatch goroutine and the call inbox ================= *)
+
+(* 1100 uncollected calls, then the reply of a pending request: as it is the reply is delivered
+   at once; with a wait for room in the inbox the dispatcher stops behind the first call that does
+   not fit and the request (answered by the broker!) runs into its deadline *)
+Fixpoint flood (callK : proc -> proc) (n : nat) (k : proc) : proc :=
+  match n with O => k | S n' => callK (flood callK n' k) end.
+
+Lemma call_inbox_flood :
+  (let w := run (init 60 [FStConnected] [connRequest 2 (Some 300) 1; flood dispatchCallK 1100 (dispatchReplyK 1 (Ret ONil))]) [(ETick 300, 0%nat)] in
+   map result (procs w) = [ONil; ONil] /\ map ret_at (procs w) = [Some 0; Some 0]) /\
+  (let w := run (init 60 [FStConnected] [connRequest 2 (Some 300) 1; flood dispatchCallK_wait 10 (dispatchReplyK 1 (Ret ONil))]) [(ETick 300, 0%nat); (ETick far, 0%nat)] in
+   result (nth 0 (procs w) dummy) = OCtx /\ returned (nth 1 (procs w) dummy) = false) /\
+  nowait fast_lock (flood dispatchCallK 1100 (dispatchReplyK 1 (Ret ONil))) = true /\
+  nowait fast_lock (dispatchCallK_wait (Ret ONil)) = false.
+Proof. vm_compute. repeat split; reflexivity. Qed.
